@@ -31,7 +31,7 @@ def gen_history(ctx, max_dt):
     hist = []
     for _ in range(nt):
         nr = rng.choice([0, 0, 1, 2, 3, maxr])
-        rs = [(t(), rng.randint(0, 3)) for _ in range(nr)]
+        rs = [(t(), rng.choice([0, 1, 2, 3, 3, 100, 101])) for _ in range(nr)]     # ids >= 100: readings the filter rejects
         seen = [r for h in hist for r in h["readings"]] + rs
         if seen and rng.random() < 0.35:
             # a reading that was delivered before (in this tick's list or in an earlier tick) is delivered again: the filter
@@ -51,7 +51,7 @@ def by_hand(max_dt, t0, hist, plan, tagged=True):
     for tk in hist:
         c = f" c{tk['control_id']}" if tagged and tk.get("control_id") else ""
         for ts, i in tk["readings"]:
-            held = held + [f"p {rh.fbits(d)}{c}" for d in plan(max_dt, held_t, ts)] + [f"s {i}"]
+            held = held + [f"p {rh.fbits(d)}{c}" for d in plan(max_dt, held_t, ts)] + ([f"s {i}"] if i < 100 else [])
             held_t = ts
         outs.append(held + [f"p {rh.fbits(d)}{c}" for d in plan(max_dt, held_t, tk["out"])])
     return outs
